@@ -1,7 +1,7 @@
 (* Executable model of the session layer of asyncfix (asyncfix/connection.py, session.py and the
    journal / codec operations they call), at MESSAGE level: a decoded message is its message type
    plus the ordered list of (tag, value) strings; bytes never appear here.  The model follows the
-   Python line by line, including its defects (ledger rows D10, D11, D12, D15, D20, D22, ...).
+   Python line by line, including its defects (ledger rows D11, D12, D15, D20, D22, ...; D10 is repaired in the code).
    No proofs here: see AF.Lemmas.Session*.v and AF.Props.C04 / C11 / C05.
 
    Conventions
@@ -591,7 +591,16 @@ Definition dispatch (c : cfg) (m : msg) (valid : bool) : M unit :=
   | KLogon => ret tt
   | KTestReq => process_testrequest c m
   | KHeartbeat => process_heartbeat c m
-  | KLogout | KApp => if valid then emit (App m) else ret tt
+  | KLogout | KApp =>
+      (* if is_valid_msg_num and msg_seq_num == self._session.next_num_in: on_message(msg)
+         (msg_seq_num is the local computed before _check_seqnum_gaps: it parsed when valid is true) *)
+      if valid then
+        w <- getw ;;
+        match get_int T34 m with
+        | inl n => if n =? nin w then emit (App m) else ret tt
+        | inr _ => ret tt
+        end
+      else ret tt
   end.
 
 (* after the try block: dispatch under `except Exception`, then `finally: if is_valid_msg_num` *)
